@@ -1872,7 +1872,69 @@ def c05_exact(inp):
     return {"reproduced": False, "detail": f"pLSCF recovers the coefficients and reports the roots of det A on {ntr} exact right matrix fractions"}
 
 
-DRIVERS = {"c05_exact": c05_exact, "c01_exact": c01_exact, "c01_modal": c01_modal, "c19_geo": c19_geo, "c15_gating": c15_gating, "c15_poser": c15_poser, "c11_plscf_findmin": c11_plscf_findmin, "c11_mpe": c11_mpe, "c06_fdd": c06_fdd, "c20_plots": c20_plots, "c18_indicators": c18_indicators, "c13_sdest": c13_sdest, "c04_preger": c04_preger, "c03_split": c03_split, "c14_sequences": c14_sequences, "c16_dialog": c16_dialog, "c02_merge": c02_merge, "c09_run": c09_run, "c10_run": c10_run, "c10_fn": c10_fn}
+
+def c03_exact(inp):
+    """multi-setup (PreGER) SSI on noise-free free-vibration data of one global system seen by several setups"""
+    from pyoma2.algorithms import SSIcov_MS, SSIdat_MS
+    from pyoma2.setup import MultiSetup_PreGER
+    rng = np.random.RandomState(int(inp.get("seed", 3)))
+    ntr = int(inp.get("trials", 8))
+    for trial in range(ntr):
+        m = int(rng.randint(1, 4))
+        nset = int(rng.randint(2, 4))
+        nref = int(rng.randint(max(1, min(m, 2)), 4))
+        nmov = [int(rng.randint(1, 4)) for _ in range(nset)]
+        fs = float(rng.choice([50.0, 100.0]))
+        ndof = nref + sum(nmov)
+        f, xi, lam, phi = _free_system(rng, m, ndof, fs, complex_shapes=False)
+        if np.linalg.matrix_rank(phi[:nref, :]) < min(m, nref) or (nref < m):
+            continue
+        n = 800
+        br = 2 * m + int(rng.randint(2, 5))
+        datasets, ref_ind, g_rows = [], [], []
+        start = nref
+        for s_ in range(nset):
+            rows_glob = list(range(nref)) + list(range(start, start + nmov[s_]))
+            start += nmov[s_]
+            gain = 10.0 ** rng.uniform(-2, 2)
+            y = _free_response(rng, lam, phi[rows_glob, :], n, fs, gain=gain)
+            nch = len(rows_glob)
+            # references at arbitrary positions of the channel list, listed in arbitrary order
+            pos = rng.permutation(nch)[:nref]
+            order = [None] * nch
+            rov_pos = [p_ for p_ in range(nch) if p_ not in pos]
+            for k, p_ in enumerate(pos):
+                order[p_] = k
+            for k, p_ in enumerate(rov_pos):
+                order[p_] = nref + k
+            datasets.append(y[:, order])
+            ref_ind.append([int(p_) for p_ in pos])
+        ctx = f"m={m}, setups={nset}, refs={nref}, roving={nmov}, ref_ind={ref_ind}, br={br}, f={np.round(f, 3).tolist()}, trial {trial}"
+        for cls, meth in ((SSIcov_MS, "cov_mm"), (SSIdat_MS, "dat")):
+            try:
+                ms = MultiSetup_PreGER(fs=fs, ref_ind=ref_ind, datasets=[d.copy() for d in datasets])
+                alg = cls(name="a", br=br, ordmax=2 * m + 2, method=meth, hc=dict(conj=True, xi_max=0.2, mpc_lim=0.0, mpd_lim=10.0, cov_max=1e9))
+                ms.add_algorithms(alg)
+                ms.run_by_name("a")
+            except Exception as e:      # noqa: BLE001
+                return {"reproduced": True, "detail": f"{cls.__name__}({meth}) raised {type(e).__name__}: {e} ({ctx})"}
+            res = alg.result
+            col = 2 * m
+            Fn, Xi, Phi, Lam = res.Fn_poles[:, col], res.Xi_poles[:, col], res.Phi_poles[:, col, :], res.Lambds[:, col]
+            fin = np.isfinite(Fn)
+            keep = fin & (np.imag(Lam) > 0)
+            if Phi.shape[1] != ndof:
+                return {"reproduced": True, "detail": f"{cls.__name__}({meth}): shapes have {Phi.shape[1]} components, the global system has {ndof} sensors ({ctx})"}
+            if int(np.sum(keep)) != m:
+                return {"reproduced": True, "detail": f"{cls.__name__}({meth}): order {col} holds {int(np.sum(keep))} conjugate pairs instead of {m} ({ctx})"}
+            tol = 1e-4
+            err = _match_modes(f, xi, phi, Fn[keep], Xi[keep], Phi[keep], f"{cls.__name__}({meth}) at order {col}", tol, tol, tol)
+            if err:
+                return {"reproduced": True, "detail": err + f" ({ctx})"}
+    return {"reproduced": False, "detail": f"{ntr} noise-free multi-setup systems: SSIcov_MS(cov_mm) and SSIdat_MS recover the global f, xi and shapes (references first, then roving per setup) at order 2m, independent of per-setup gains"}
+
+
+DRIVERS = {"c03_exact": c03_exact, "c05_exact": c05_exact, "c01_exact": c01_exact, "c01_modal": c01_modal, "c19_geo": c19_geo, "c15_gating": c15_gating, "c15_poser": c15_poser, "c11_plscf_findmin": c11_plscf_findmin, "c11_mpe": c11_mpe, "c06_fdd": c06_fdd, "c20_plots": c20_plots, "c18_indicators": c18_indicators, "c13_sdest": c13_sdest, "c04_preger": c04_preger, "c03_split": c03_split, "c14_sequences": c14_sequences, "c16_dialog": c16_dialog, "c02_merge": c02_merge, "c09_run": c09_run, "c10_run": c10_run, "c10_fn": c10_fn}
 
 
 def main():
